@@ -4,20 +4,26 @@
    trie that started on an empty database, after every call [exact t occ] holds with [occ] the
    occurrence multiset of hashed nodes of the current trie (= what regenerate_ref_count returns).
 
-   PROVED HERE (database-level model, any hash function): the bookkeeping layer.
+   PROVED (C06_exact at the end of this file; Hexary/Refine_write_prune.v): exactly that, for
+   every history of DIRECT set / delete / set-to-empty calls: reference counts = occurrence
+   counts of the tree-level result, database = exactly the nodes of that tree, every key
+   readable, under the explicit premises "no hash collision among / size bound on the bodies
+   the history writes".  Histories through squash_changes batches are not covered by the
+   theorem (they rest on the oracle below, on Properties/C05 and on correspondence).
+   ALSO PROVED (database-level model, any hash function): the bookkeeping layer.
    [exact] is preserved by a whole operation GIVEN that its body persisted nodes with
    multiplicities [inc] and requested prunes [dec] (C06_accounting); for the real set / delete
    bodies every hypothesis about [inc] is discharged and the single remaining premise is that
    no node is asked to be pruned more often than it is counted (C06_set_step / C06_delete_step);
    the exact effect of _complete_pruning; regenerate_ref_count only counts nodes it read.
-   NOT PROVED: the schedule — that inc/dec are exactly the occurrences gained/lost by the
-   tree-level update (needs the D->T write refinement).  That part rests on this run's oracle
-   (equality with regenerate_ref_count and with the key set of the database after EVERY call) and
-   on the correspondence of the D-level model; the pre-fix defect D2 is refuted in Findings.v. *)
+   The run's oracle checks equality with regenerate_ref_count and with the key set of the
+   database after EVERY call (batches included); the pre-fix defect D2 is refuted in Findings.v. *)
 From Coq Require Import List NArith ZArith Bool.
 From PyTrie.Base Require Import Bytes Result AMap.
 From PyTrie.Db Require Import ScratchDb.
-From PyTrie.Hexary Require Import Raw D D_safety D_prune.
+From PyTrie.Base Require Import Nibbles Rlp.
+From PyTrie.Hexary Require Import Raw Tree D D_safety D_read D_prune Refine_read Refine_write Refine_write_prune.
+From PyTrie.Hexary Require Tree_unique.
 Import ListNotations.
 Open Scope Z_scope.
 
@@ -73,6 +79,25 @@ Theorem C06_regenerate_reads : forall BNH fuel t s m t', t_db t = DPlain s ->
   forall h, aget m h <> None -> (32 <= length h)%nat -> aget (cells s) h <> None.
 Proof. exact regenerate_keys_present. Qed.
 Print Assumptions C06_regenerate_reads.
+
+(* exactness after every history of direct writes on a pruning trie from the empty database *)
+Theorem C06_exact : forall H BNH, (forall x, length (H x) = 32%nat) -> BNH = H (rlp_encode (RStr [])) ->
+  forall ws : list wop,
+  cf H (hist_bodies H ws) -> Forall (fun b => (blen b < 2 ^ 64)%N) (hist_bodies H ws) ->
+  let ops := map top_of ws in
+  exists m rc,
+    wrun H BNH ws (empty_trie BNH true) = (map (fun _ => Ok tt) ws, pstate H m rc (trun ops)) /\
+    represents H m (troot H (trun ops)) (trun ops) /\ content_addressed H m /\
+    (forall h, zget rc h = occR H (trun ops) h) /\                          (* counts = occurrences *)
+    (forall h, amem m h = true <-> Z.lt 0%Z (occR H (trun ops) h)) /\            (* db = exactly the live nodes *)
+    (forall k, fst (get BNH k (pstate H m rc (trun ops))) = Ok (spec_run ops (bytes_to_nibbles k))) /\
+    (forall J, Tree_unique.good_bindings J -> (forall q, nibs_ok q = true -> lookup J q = spec_run ops q) ->
+               t_root (pstate H m rc (trun ops)) = yp_root H J).
+Proof. exact Refine_write_prune.C01_D_pruning. Qed.
+Print Assumptions C06_exact.
+
+(* one API write preserves the exactness invariant [pinv] *)
+Print Assumptions write_refines_ps.
 
 (* non-vacuity: a concrete pruning history creating a node shared by two identical sub-tries,
    then deleting one of them; [exact] holds with the regenerated counts after every call *)
